@@ -324,6 +324,29 @@ def structure(m) -> tuple:  # noqa: ANN001
     return (vs, ps, ds, rs)
 
 
+def extra_observations(m, states: list[dict[str, float]]) -> dict:  # noqa: ANN001
+    """reactions / rates / coefficients / stored numbers of the built Model (plain data)"""
+    from mxlpy.types import Derived, InitialAssignment
+
+    raw = m.get_raw_reactions(as_copy=False)
+    stored: dict[str, dict[str, float | None]] = {
+        k: {s: (None if isinstance(c, Derived) else float(c)) for s, c in r.stoichiometry.items()} for k, r in raw.items()
+    }
+    plain: dict[str, float] = {}
+    for k, p in m.get_raw_parameters(as_copy=False).items():
+        if not isinstance(p.value, InitialAssignment):
+            plain[k] = float(p.value)
+    for k, v in m.get_raw_variables(as_copy=False).items():
+        if not isinstance(v.initial_value, InitialAssignment):
+            plain[k] = float(v.initial_value)
+    per = []
+    for st in states:
+        fl = m.get_fluxes(variables=dict(st), time=0.0).to_dict()
+        sto = m.get_stoichiometries(variables=dict(st), time=0.0)
+        per.append((fl, {r: {s: float(sto.loc[s, r]) for s in sto.index} for r in sto.columns}))
+    return {"reactions": list(m.get_reaction_names()), "stored": stored, "plain": plain, "per": per}
+
+
 def run_read(path: Path, states: list[dict[str, float]] | None, n_states_fn=None) -> dict:  # noqa: ANN001
     """Read the document with the real implementation.
 
@@ -368,6 +391,15 @@ def run_read(path: Path, states: list[dict[str, float]] | None, n_states_fn=None
         except BaseException as e:  # noqa: BLE001
             out["exc"] = type(e).__name__
             out["obs"] = (classify(e), f"{type(e).__name__}: {e}"[:300])
+            return out
+        # what the oracle looks at beyond values and derivatives (never sent to Coq): the reactions of the Model,
+        # their rates, the coefficients as stored and as reported, the plain numbers as stored
+        try:
+            out["extra"] = extra_observations(m, states)
+        except _Timeout:
+            raise
+        except BaseException as e:  # noqa: BLE001
+            out["extra_error"] = f"{type(e).__name__}: {e}"[:300]
         return out
     except _Timeout:
         out["obs"] = ("ErrOther", "timeout (20 s)")
